@@ -66,7 +66,7 @@ def generate(sweep: Sweep, parts=None):
         try:
             sweep.model(terms, 6)
         except Unsupported as e:
-            yield LemmaResult(q=q, F=tuple(sorted(F)), T="*", desc=f"context not encodable ({e}); Output lines are covered at grammar level only",
+            yield LemmaResult(q=q, F=tuple(sorted(F)), T="*", desc=f"context not encodable ({e}): covered at grammar level only",
                               verdict="skipped", prefix=prefix)
             continue
         for T in sorted(F):
@@ -151,7 +151,17 @@ def generate(sweep: Sweep, parts=None):
                 ok_types = [lm.names.index(n) for n in ("_NEWLINE", "COMMENT") if n in lm.names]
                 yield _check_any(sweep, q, F, prefix, terms, cbs, "COMMENT", "comment up to the end", lm, prem, ok_types, wl)
             elif T == "ESCAPED_STRING":
-                continue
+                if not want("string"):
+                    continue
+                # a quoted file name: '"' + characters other than quote, backslash and line end + '"', followed by anything
+                lm = sweep.model(terms, 12)
+                s = lm.s
+                wl = z3.Int(f"asl_{id(lm)}")
+                prem = [wl >= 2, wl <= 11, s.n >= wl, s.c[0] == 34]
+                for i in range(1, 12):
+                    prem.append(z3.Implies(i == wl - 1, s.c[i] == 34))
+                    prem.append(z3.Implies(z3.And(i >= 1, i < wl - 1), z3.And(s.c[i] != 34, s.c[i] != 92, s.c[i] != 10)))
+                yield sweep.check(q, F, prefix, terms, cbs, T, "string literal class (quoted, no quote / backslash / line end inside)", lm, prem, host, wl)
             else:
                 yield LemmaResult(q=q, F=tuple(sorted(F)), T=T, desc="terminal without an intended class", verdict="unsupported", prefix=prefix)
         if want("blank") and "WS_INLINE" in names:
